@@ -361,6 +361,7 @@ class Cx:
         self.module_vars = {}      # (module, name) -> value (mutable globals)
         self._disp = {}
         self._gcache = {}
+        self._busy_consts = set()
 
     # ---- exploration of symbolic branches ---------------------------------
     def explore(self, fn, max_paths=64):
@@ -667,8 +668,7 @@ class Cx:
             if r[0] == 'const':
                 v = self.consts.module_const(r[1].name, r[2])
                 if v is CE.UNKNOWN:
-                    raise CxError('module constant {}.{} is not evaluable'
-                                  .format(r[1].name, r[2]))
+                    v = self._eval_module_assign(r[1], r[2])
                 v = self.conv(v)
                 if isinstance(v, (list, dict, Seq)):
                     self.module_vars[(r[1].name, r[2])] = v
@@ -678,6 +678,27 @@ class Cx:
         if name in EXC_NAMES:
             return Ext(name)
         raise PyRaise('NameError', (name,))
+
+    def _eval_module_assign(self, module, name):
+        """a module-level `name = <expr>` the constant evaluator gave up on
+        (tables holding lambdas, ...): evaluate the expression here"""
+        node = None
+        for st in module.tree.body:
+            if isinstance(st, ast.Assign) and len(st.targets) == 1 and \
+                    isinstance(st.targets[0], ast.Name) and \
+                    st.targets[0].id == name:
+                node = st
+        if node is None:
+            raise CxError('module constant {}.{} is not evaluable'.format(
+                module.name, name))
+        key = (module.name, name)
+        if key in self._busy_consts:
+            raise CxError('cyclic module constant ' + name)
+        self._busy_consts.add(key)
+        try:
+            return self.ev(node.value, Frame(module, {}))
+        finally:
+            self._busy_consts.discard(key)
 
     # ---- calls ---------------------------------------------------------------
     def call_function(self, f, args, kwargs=None, bound=None, closure=None):
